@@ -37,6 +37,7 @@ INFO = {
 
 COMPONENTS = ["initial_state_dist", "actions", "next_state_dist", "reward", "is_absorbing"]
 SIG_DISCOUNT = "C15:augment:instance-level-discount_rate-lost"
+SIG_REDERIVE = "C15:augment:of-derived-mdp:overridden-component-unusable"
 
 PRE = r"""From Coq Require Import QArith List Bool String Arith.
 From MSDM Require Import model.Option.
@@ -157,19 +158,46 @@ def complete(m, rng, fill_rewards=True):
             "absorbing": [bool(x) for x in m["absorbing"]], "init": [list(x) for x in m["init"]]}
 
 
-def gen_tables(rng, nmax, n=None, nA=None):
+def gen_tables(rng, nmax, n=None, nA=None, min_states=2):
     for _ in range(1000):
-        m = gen_mdp.gen_mdp(rng, nmax=nmax, amax=3, gamma="1/2", min_states=2)
+        m = gen_mdp.gen_mdp(rng, nmax=nmax, amax=3, gamma="1/2", min_states=min_states)
         if (n is None or m["n"] == n) and (nA is None or m["nA"] == nA):
             return complete(m, rng)
     raise RuntimeError("generator did not produce the requested shape")
 
 
-GAMMAS = ["1/2", "9/10", "1"]
+# discount rates: below 1, at 1, and the boundaries 0 and 1 - 2^-20
+GAMMAS = ["1/2", "9/10", "1", "1/2", "9/10", "1", "0", "1048575/1048576"]
+TINY = F(1, 2 ** 30)
 
 
-def gen_base(rng, nmax, list_actions=False, used=False):
-    T = gen_tables(rng, nmax)
+def boundary_tables(rng, T, gamma, feats):
+    """parameter boundaries, only where float arithmetic on them stays exact (so that nothing has to be
+    compared more loosely): probabilities 2^-30 / 1 - 2^-30; rewards scaled to ~1e3 / ~1e6 (discounts
+    0, 1/2, 1: every partial sum of gamma^t r_t stays within 53 bits); reward gaps of 2^-30 (discounts 0, 1)"""
+    n, nA = T["n"], T["nA"]
+    if rng.random() < .15:
+        rows = [(s, a) for s in range(n) for a in range(nA) if len([1 for _, p in T["trans"][s][a] if F(p) > 0]) == 2]
+        if rows:
+            s, a = rng.choice(rows)
+            pos = [i for i, (_, p) in enumerate(T["trans"][s][a]) if F(p) > 0]
+            T["trans"][s][a][pos[0]][1] = str(1 - TINY)
+            T["trans"][s][a][pos[1]][1] = str(TINY)
+            feats.append("tiny_probability")
+    r = rng.random()
+    if r < .15 and gamma in (F(0), F(1, 2), F(1)):
+        k = rng.choice([2 ** 10, 2 ** 20])
+        T["rew"] = [[[str(F(x) * k) for x in row] for row in mat] for mat in T["rew"]]
+        feats.append("large_rewards")
+    elif r < .3 and gamma in (F(0), F(1)):
+        for _ in range(3):
+            s, a, ns = rng.randrange(n), rng.randrange(nA), rng.randrange(n)
+            T["rew"][s][a][ns] = str(F(T["rew"][s][a][ns]) + rng.choice([TINY, -TINY]))
+        feats.append("tiny_reward_gaps")
+
+
+def gen_base(rng, nmax, list_actions=False, used=False, min_states=2):
+    T = gen_tables(rng, nmax, min_states=min_states)
     tabular = used or rng.random() < .7
     style = "quick" if rng.random() < .3 else "table"
     if style == "quick":
@@ -186,10 +214,19 @@ def gen_base(rng, nmax, list_actions=False, used=False):
         if rng.random() < .5:
             rng.shuffle(sl)
             rng.shuffle(al)
-        lists = {"where": "inst" if style == "quick" else rng.choice(["inst", "cls"]), "state_list": sl, "action_list": al}
-    return {"tables": T, "tabular": tabular, "style": style, "gammas": g, "lists": lists,
+        where = "inst" if style == "quick" else rng.choice(["inst", "cls"])
+        if not used and rng.random() < .2:
+            where = "inferred"       # no explicit lists: msdm infers them (reachability, sorted); the model is given what msdm reports
+        lists = {"where": where, "state_list": sl, "action_list": al}
+    base = {"tables": T, "tabular": tabular, "style": style, "gammas": g, "lists": lists,
             "touch": used or rng.random() < .5,      # the base object is USED (caches filled) before anything is derived from it
-            "actions_as": "list" if list_actions else rng.choice(["list", "tuple"])}
+            "actions_as": "list" if list_actions else rng.choice(["list", "tuple"]),
+            # representations: labels the msdm objects see for state / action ids (id 0 is the falsy label "" / ()),
+            # distribution classes, integral discounts passed as int
+            "labels": {"state": rng.choice(["int", "int", "str", "tuple"]), "action": rng.choice(["int", "int", "str"])},
+            "dist_as": rng.choice(["dict", "auto"]), "gamma_as_int": rng.random() < .5, "features": []}
+    boundary_tables(rng, T, base_discount(base), base["features"])
+    return base
 
 
 def base_discount(base):
@@ -213,19 +250,22 @@ def gen_augment(rng, tier):
     return {"kind": "augment", "base": base, "alt": alt, "subsets": subsets}
 
 
-def gen_subtask(rng, tier):
-    base = gen_base(rng, 5)
+def gen_subtask(rng, tier, base=None):
+    base = base or gen_base(rng, 5, min_states=1)
     n = base["tables"]["n"]
-    k = rng.randint(1, max(1, n - 1))
-    subgoals = rng.sample(range(n), k)
-    initial = rng.sample(range(n), rng.randint(1, n))
+    # sub-goal / initiation sets: empty, one element, several, everything
+    subgoals = rng.sample(range(n), rng.choice([0, 1, 1, rng.randint(0, n), n]))
+    initial = rng.sample(range(n), rng.choice([0, 1, rng.randint(1, n), n]))
     maxr = rng.choice([None, "0", "-1", "-1/2", "1", "-3", "2"])
+    # planning_result / policy of the option (needs a tabular sub-task)
+    plan = base["tabular"] and rng.random() < .4
     return {"kind": "subtask", "base": base, "initial_states": initial, "subgoals": subgoals,
-            "include": rng.random() < .5, "maxr": maxr}
+            "include": rng.random() < .5, "maxr": maxr, "name": rng.choice([None, None, "", "go", 0]), "plan": plan}
 
 
 def gen_used(rng, tier):
-    """multi-step scenario: base built, its cached views touched and planned on, THEN derived MDPs"""
+    """multi-step scenario: base built, its cached views touched and planned on, THEN derived MDPs
+    (also MDPs derived from a derived, used MDP)"""
     base = gen_base(rng, 4, used=True)
     T = base["tables"]
     n = T["n"]
@@ -240,9 +280,10 @@ def gen_used(rng, tier):
         if rng.random() < .3:
             keys += rng.choice([["state_list"], ["action_list"], ["state_list", "action_list"]])
         derive.append({"how": "augment", "keys": keys})
-    st = gen_subtask(rng, tier)
-    derive.append({"how": "sub_task", "initial_states": [x for x in st["initial_states"] if x < n] or [0],
-                   "subgoals": sorted({x % n for x in st["subgoals"]}), "include": st["include"], "maxr": st["maxr"]})
+    derive.append({"how": "augment2", "keys1": rng.sample(COMPONENTS, rng.randint(1, 3)), "keys": rng.sample(COMPONENTS, rng.randint(0, 2))})
+    st = gen_subtask(rng, tier, base=base)
+    derive.append({"how": "sub_task", "initial_states": st["initial_states"] or [0],
+                   "subgoals": st["subgoals"], "include": st["include"], "maxr": st["maxr"], "name": st["name"]})
     return {"kind": "used", "base": base, "alt": alt, "derive": derive}
 
 
@@ -262,32 +303,44 @@ def gen_option(rng, T, max_steps, term_p=.4):
 
 
 def gen_run(rng, tier):
-    base = gen_base(rng, 5)
+    base = gen_base(rng, 5, min_states=1)
     T = base["tables"]
     opt = gen_option(rng, T, 0, term_p=rng.choice([0., .2, .4, .6]))
-    return {"kind": "run", "base": base, "option": opt, "s0": rng.randrange(T["n"]), "seed": rng.randrange(2 ** 31),
+    s0 = rng.randrange(T["n"])
+    if rng.random() < .1:
+        opt["terminal"][s0] = True             # started in a state that is already terminal for it
+    return {"kind": "run", "base": base, "option": opt, "s0": s0, "seed": rng.choice([0, rng.randrange(2 ** 31)]),
             "natural_cap": 40, "ms_abs": rng.sample([0, 1, 2, 3, 4, 6], 3), "ms_rel": [-1, 0, 1, 2, 3, 5]}
 
 
 def gen_smdp(rng, tier):
     include = rng.random() < .5
-    base = gen_base(rng, 5, list_actions=include)
+    base = gen_base(rng, 5, list_actions=include, min_states=1)
     T = base["tables"]
-    nopt = rng.randint(1, 3)
+    n = T["n"]
+    nopt = rng.choice([0, 1, 2, 2, 3])
     options = [gen_option(rng, T, rng.choice([2, 3, 5, 8, 15, 30, 40, 40]), term_p=rng.choice([.25, .4, .6])) for _ in range(nopt)]
-    s0 = rng.randrange(T["n"])
+    s0 = rng.randrange(n)
     for o in options:
-        if rng.random() < .8:
+        r = rng.random()
+        if r < .75:
             o["terminal"][s0] = False          # mostly start outside the termination set
+        elif r < .9:
+            o["terminal"][s0] = True           # option started in a state that is already terminal for it
         if rng.random() < .7:
-            for x in range(T["n"]):            # traps of the base MDP end the option
+            for x in range(n):                 # traps of the base MDP end the option
                 if x != s0 and (T["absorbing"][x] or all(len(T["trans"][x][a]) == 1 and T["trans"][x][a][0][0] == x for a in T["actions"][x])):
                     o["terminal"][x] = True
-        if not any(o["terminal"]) and rng.random() < .8:
-            o["terminal"][rng.choice([x for x in range(T["n"]) if x != s0])] = True
-    queries = [["opt", i] for i in range(nopt)] + [["prim", a] for a in range(T["nA"])]
+        others = [x for x in range(n) if x != s0]
+        if not any(o["terminal"]) and others and rng.random() < .8:
+            o["terminal"][rng.choice(others)] = True
+    queries = [["opt", i, s0] for i in range(nopt)] + [["prim", a, s0] for a in range(T["nA"])]
+    # the SAME semi-MDP and option objects queried again from another state
+    if nopt and n > 1:
+        s1 = rng.choice([x for x in range(n) if x != s0])
+        queries += [["opt", rng.randrange(nopt), s1], ["prim", rng.randrange(T["nA"]), s1]]
     return {"kind": "smdp", "base": base, "options": options, "n": rng.randint(1, 20), "include": include,
-            "seed": rng.choice([None, rng.randrange(2 ** 31), rng.randrange(100)]), "global_seed": rng.randrange(2 ** 31),
+            "seed": rng.choice([None, None, 0, rng.randrange(2 ** 31), rng.randrange(100)]), "global_seed": rng.randrange(2 ** 31),
             "s": s0, "queries": queries}
 
 
@@ -309,10 +362,15 @@ def oq_lit(x):
     return "None" if x is None else "(Some %s)" % q(x)
 
 
-def base_lit(base):
+def base_lit(base, res=None):
     g, ls = base["gammas"], base["lists"]
     lst = "None" if ls is None else "(Some (%s, %s))" % (natlist(ls["state_list"]), natlist(ls["action_list"]))
     li = lst if (ls and ls["where"] == "inst") else "None"
+    if ls and ls["where"] == "inferred":
+        # lists inferred by msdm (reachability + sorting are property C06's business): the model is told what they are
+        bl = (res or {}).get("base_lists")
+        if isinstance(bl, list):
+            li = "(Some (%s, %s))" % (natlist(bl[0]), natlist(bl[1]))
     lc = lst if (ls and ls["where"] == "cls") else "None"
     return "(mk_base %s %s %s %s %s %s %s %s)" % (
         vlib.b(base["style"] == "quick"), vlib.b(base["tabular"]), tables_lit(base["tables"]),
@@ -513,6 +571,17 @@ class Checker:
                 self.violation("C15:sub_task:" + k, detail, found=True, once_key=k)
         else:
             self.bump("subtask_property_held")
+            if not case["subgoals"] or not case["initial_states"]:
+                self.bump("subtask_empty_goal_or_initiation_set")
+        if case.get("plan") and not bad:
+            # the option's own planning_result / policy = planning on a brand-new MDP with the sub-task's components
+            self.bump("subtask_planned")
+            if res.get("plan") != res.get("plan_fresh_equivalent"):
+                why = "the option's planning result differs from planning on a fresh MDP with the sub-task's components"
+                self.violation("C15:sub_task:" + why, {"case": case, "clause": why, "plan": res.get("plan"),
+                                                      "plan_fresh_equivalent": res.get("plan_fresh_equivalent")}, found=True, once_key="plan")
+        if res.get("hashable") is not True:
+            self.violation("C15:sub_task:option-not-hashable", {"case": case, "hashable": res.get("hashable")}, found=True, once_key="h")
         ok, m = some(val)
         if not ok or norm_model_dump(m) != sub_i:
             self.violation("C15:sub_task:model-differs", {"case": case, "impl": sub_i, "model": norm_model_dump(m) if ok else None},
@@ -565,13 +634,27 @@ class Checker:
             d_i = norm_impl_dump(rep)
             v_i = self.norm_views(rep["views"])
             clause = None
+            if d["how"] == "augment2":
+                # GENUINE msdm DEFECT (reported): a component overridden in the first derivation and NOT overridden in the second
+                # is a plain function on the first class; `AugmentedMDP.x = mdp.x` stores it un-wrapped on the second class,
+                # Python binds it as a method and every call raises TypeError.  model/Option.v treats plain class values as
+                # never re-bound, so the model is not compared on these derivations while the defect is open.
+                lost = [k for k in d["keys1"] if k not in d["keys"] and d_i[KEY2DUMP[k]] == "ERR"]
+                if lost:
+                    self.violation(SIG_REDERIVE, dict(detail, unusable_components=lost, impl=rep,
+                                   clause="component overridden in a first augment is unusable (TypeError) on an MDP derived from that derived MDP"),
+                                   found=True, once_key="rederive")
+                    continue
             # (1) the functional interface of the derived MDP (property, on the implementation alone)
-            if d["how"] == "augment":
+            if d["how"] in ("augment", "augment2"):
+                ovk = set(d["keys"]) | set(d.get("keys1", []))
+                if d["how"] == "augment2":
+                    self.bump("used_second_level_derivations")
                 for k in COMPONENTS + ["discount_rate", "state_list", "action_list"]:
                     dk = KEY2DUMP[k]
-                    want = alt[dk] if k in d["keys"] else base_i[dk]
+                    want = alt[dk] if k in ovk else base_i[dk]
                     if d_i[dk] != want:
-                        clause = "component %s of the MDP derived from a used base is not the %s" % (k, "override" if k in d["keys"] else "base MDP's")
+                        clause = "component %s of the MDP derived from a used base is not the %s" % (k, "override" if k in ovk else "base MDP's")
                         break
             elif d_i["discount"] != base_i["discount"] or d_i["trans"] != base_i["trans"]:
                 clause = "sub-task of a used base does not keep the base discount / dynamics"
@@ -713,7 +796,7 @@ class Checker:
     def check_smdp(self, case, res, vals, acts_val):
         T = case["base"]["tables"]
         gamma = base_discount(case["base"])
-        exact = gamma in (F(1, 2), F(1))
+        exact = gamma in (F(0), F(1, 2), F(1))
         tol = 0.0 if exact else 1e-9
         self.bump("smdp_cases")
         if fl(res["base_discount"]) != float(gamma):
@@ -747,16 +830,26 @@ class Checker:
                     return out
                 if want is None or canon(got) != canon(want):
                     self.violation("C15:smdp.actions:model-differs", {"case": case, "impl": got, "model": want}, found=False, once_key="a")
-        for (kind, idx), qres, val in zip(case["queries"], res["queries"], vals):
+        if case["seed"] is None:
+            self.bump("smdp_seed_None")
+            if not res["seed_constant_after_first_option_query"]:
+                self.violation("C15:smdp:seed-redrawn-between-queries", {"case": case, "seed_after": res["seed_after"]}, found=True, once_key="s")
+        if case["seed"] == 0:
+            self.bump("smdp_seed_0")
+            if res["seed_after"] != 0:
+                self.violation("C15:smdp:seed-0-replaced", {"case": case, "seed_after": res["seed_after"]}, found=True, once_key="s0")
+        for (kind, idx, sid), qres, val in zip(case["queries"], res["queries"], vals):
             self.bump("smdp_evaluations")
-            detail = {"case": case, "query": [kind, idx], "impl": qres}
+            if sid != case["s"]:
+                self.bump("smdp_second_state_queries")
+            detail = {"case": case, "query": [kind, idx, sid], "impl": qres}
             if isinstance(val, vlib.CoqError):
                 self.violation("C15:coq-evaluation-failed", {"case": case, "error": str(val)[:800]}, found=False)
                 continue
             tag, dists, msims = val
             nstr = qres["nstr"]
             if kind == "prim":
-                avail = idx in T["actions"][case["s"]]
+                avail = idx in T["actions"][sid]
                 clause = None
                 if not avail:
                     if nstr.get("raised") != "ValueError":
@@ -764,8 +857,8 @@ class Checker:
                 elif "raised" in nstr:
                     clause = "available primitive action raises " + nstr["raised"]
                 else:
-                    row = [(ns, fl(p)) for ns, p in T["trans"][case["s"]][idx]]
-                    want = [((ns, 1, fl(T["rew"][case["s"]][idx][ns])), p) for ns, p in row]
+                    row = [(ns, fl(p)) for ns, p in T["trans"][sid][idx]]
+                    want = [((ns, 1, fl(T["rew"][sid][idx][ns])), p) for ns, p in row]
                     got = [((k[0], k[1], fl(k[2])), fl(p)) for k, p in nstr["value"]]
                     if any(k[1] != 1 for k, _ in got):
                         clause = "primitive action with duration other than 1"
@@ -805,7 +898,7 @@ class Checker:
                         clause = "number of simulations differs from n_option_simulations"
                     elif any(hit):
                         clause = "no exception although a simulation reached the step limit"
-                    elif any(sim["states"] and sim["states"][0] != case["s"] or (not sim["states"] and sim["final"] != case["s"]) for sim in sims):
+                    elif any(sim["states"] and sim["states"][0] != sid or (not sim["states"] and sim["final"] != sid) for sim in sims):
                         clause = "simulation does not start at the queried state"
                 elif raised == "AlgorithmException":
                     if not (hit and hit[-1] and not any(hit[:-1])):
@@ -846,6 +939,8 @@ class Checker:
             else:
                 self.bump("option_property_held")
                 self.bump("option_raised" if raised else "option_returned")
+                if raised is None and opt["terminal"][sid]:
+                    self.bump("option_started_in_terminal_state")
                 if raised is None:
                     self.bump("simulations_replayed", len(sims))
                     self.bump("distinct_outcomes", len(emp))
@@ -904,7 +999,7 @@ def terms_for(case, res):
     """-> list of Gallina terms for one case (needs the implementation's recorded roll-outs)"""
     T = case["base"]["tables"]
     n, nA = T["n"], T["nA"]
-    b = base_lit(case["base"])
+    b = base_lit(case["base"], res)
     if case["kind"] == "augment":
         alt = case["alt"]
         ks = coqlist(coqlist(coqstr(k) for k in keys) for keys in case["subsets"])
@@ -918,6 +1013,10 @@ def terms_for(case, res):
             if d["how"] == "augment":
                 items.append("dump_views %s (augment b (sel_ov A %s %s %s)) %s %s" % (
                     fuel, natlist(alt["state_list"]), natlist(alt["action_list"]), coqlist(coqstr(k) for k in d["keys"]), nat(n), nat(nA)))
+            elif d["how"] == "augment2":
+                sl_, al_ = natlist(alt["state_list"]), natlist(alt["action_list"])
+                items.append("dump_views %s (match augment b (sel_ov A %s %s %s) with Some o1 => augment (touch %s o1) (sel_ov A %s %s %s) | None => None end) %s %s" % (
+                    fuel, sl_, al_, coqlist(coqstr(k) for k in d["keys1"]), fuel, sl_, al_, coqlist(coqstr(k) for k in d["keys"]), nat(n), nat(nA)))
             else:
                 so = "(mkSubgoal %s %s %s %s)" % (natlist(d["initial_states"]), natlist(d["subgoals"]), vlib.b(d["include"]), oq_lit(d["maxr"]))
                 items.append("dump_views %s (sub_task b %s) %s %s" % (fuel, so, nat(n), nat(nA)))
@@ -935,12 +1034,12 @@ def terms_for(case, res):
     if case["kind"] == "smdp":
         m = "(mkSMDP %s %s %s %s)" % (b, coqlist(opt_lit(o) for o in case["options"]), nat(case["n"]), vlib.b(case["include"]))
         out = ["actions_dump %s %s %s" % (m, nat(case["s"]), nat(n))]
-        for (kind, idx), qres in zip(case["queries"], res["queries"]):
+        for (kind, idx, sid), qres in zip(case["queries"], res["queries"]):
             if kind == "prim":
-                out.append("smdp_dump %s %s (Prim %s) []" % (m, nat(case["s"]), nat(idx)))
+                out.append("smdp_dump %s %s (Prim %s) []" % (m, nat(sid), nat(idx)))
             else:
                 streams = coqlist(stream_lit(s) for s in qres["nstr"]["sims"])
-                out.append("smdp_dump %s %s (Opt %s) %s" % (m, nat(case["s"]), opt_lit(case["options"][idx]), streams))
+                out.append("smdp_dump %s %s (Opt %s) %s" % (m, nat(sid), opt_lit(case["options"][idx]), streams))
         return out
     raise ValueError(case["kind"])
 
@@ -986,6 +1085,14 @@ def run(ctx):
             ck.check_used(case, res, vs[0])
         else:
             ck.check_smdp(case, res, vs[1:], vs[0])
+    reps = {}
+    for c in cases:
+        bs = c["base"]
+        for key in (["labels:state=" + bs["labels"]["state"], "labels:action=" + bs["labels"]["action"], "dist_as=" + bs["dist_as"],
+                     "actions_as=" + bs["actions_as"], "lists=" + (bs["lists"]["where"] if bs["lists"] else "none"),
+                     "discount=" + str(base_discount(bs)), "touched" if bs["touch"] else "fresh", "states=%d" % bs["tables"]["n"]]
+                    + bs["features"]):
+            reps[key] = reps.get(key, 0) + 1
     holders = {}
     for c in cases:
         g = c["base"]["gammas"]
@@ -1011,5 +1118,5 @@ def run(ctx):
                 "components + tabular views + ValueIteration result compared; half of all other bases are touched first too.  distinct = structural hash of the case; non-trivial = all "
                 "(every base has >= 2 states)",
         "samples": [sample] if sample else [{"case": cases[0]}],
-        "cases": len(cases), "cases_by_kind": kinds, "discount_holders": holders, "counters": ck.counts,
+        "cases": len(cases), "cases_by_kind": kinds, "discount_holders": holders, "input_representations": reps, "counters": ck.counts,
     })
